@@ -182,6 +182,10 @@ func normalizeBase(in string) string {
 		u.Path = ""
 	}
 
+	if u.Scheme == fileScheme {
+		u.RawQuery = "" // any query component is irrelevant for a local file
+	}
+
 	if u.Scheme != "" {
 		if path.IsAbs(u.Path) || u.Scheme != fileScheme {
 			// this is absolute or explicitly not a local file: we're good
